@@ -373,6 +373,65 @@ class LoopCanon(ast.NodeTransformer):
         node = self._alias_first(node)
         return node
 
+    def _comp(self, node):
+        """[f(xs[k]) for k in range(len(xs))]  ->  [f(e) for e in xs]      (k used only to index xs)"""
+        self.generic_visit(node)
+        if len(node.generators) != 1:
+            return node
+        g = node.generators[0]
+        if not isinstance(g.target, ast.Name) or g.is_async:
+            return node
+        rl = self._range_len(g.iter)
+        if rl is None or rl[1] != 'up':
+            return node
+        seq = rl[0]
+        if isinstance(seq, ast.Name) and seq.id == 'self':
+            return node
+        k, seq_text = g.target.id, ast.unparse(seq)
+        parts = [getattr(node, 'elt', None), getattr(node, 'key', None), getattr(node, 'value', None)] + list(g.ifs)
+        parts = [x for x in parts if x is not None]
+        parents = {}
+        for p_ in parts:
+            for n in ast.walk(p_):
+                for ch in ast.iter_child_nodes(n):
+                    parents[id(ch)] = n
+        subs = []
+        for p_ in parts:
+            for n in ast.walk(p_):
+                if isinstance(n, ast.Name) and n.id == k:
+                    par = parents.get(id(n))
+                    if isinstance(par, ast.Subscript) and par.slice is n and ast.unparse(par.value) == seq_text and isinstance(par.ctx, ast.Load):
+                        subs.append(par)
+                    else:
+                        return node
+        if not subs:
+            return node
+        el = self.fresh(seq_text.split('.')[-1])
+        ids = {id(x) for x in subs}
+
+        class R(ast.NodeTransformer):
+            def visit_Subscript(self, n):
+                if id(n) in ids:
+                    return ast.copy_location(ast.Name(id=el, ctx=ast.Load()), n)
+                return self.generic_visit(n)
+        for fld in ('elt', 'key', 'value'):
+            if getattr(node, fld, None) is not None:
+                setattr(node, fld, R().visit(getattr(node, fld)))
+        g.ifs = [R().visit(c) for c in g.ifs]
+        g.target = ast.copy_location(ast.Name(id=el, ctx=ast.Store()), g.target)
+        g.iter = seq
+        ast.fix_missing_locations(node)
+        return node
+
+    def visit_ListComp(self, node):
+        return self._comp(node)
+
+    def visit_GeneratorExp(self, node):
+        return self._comp(node)
+
+    def visit_SetComp(self, node):
+        return self._comp(node)
+
     def _range_len(self, it):
         """-> (sequence expr, 'up' | 'down') for range(len(xs)) / range(len(xs) - 1, -1, -1)"""
         if not (isinstance(it, ast.Call) and isinstance(it.func, ast.Name) and it.func.id == 'range' and not it.keywords):
